@@ -649,6 +649,21 @@ func main() {
 				ss[i] = strconv.Itoa(int(x))
 			}
 			fmt.Fprintf(&b, "Definition %s : list N := [%s]. (* %s:%s *)\n", t.Coq, strings.Join(ss, "; "), t.File, t.Name)
+		case "joinarg":
+			e := findValue(f, t.Name)
+			if e == nil {
+				die("value %s not found in %s", t.Name, t.File)
+			}
+			call, ok := e.(*ast.CallExpr)
+			if !ok || !strings.HasSuffix(exprStr(call.Fun), "JoinLenPrefix") || len(call.Args) != 1 {
+				die("%s is not a single-argument JoinLenPrefix call", t.Name)
+			}
+			bs := bytesEval(f, call.Args[0])
+			ss := make([]string, len(bs))
+			for i, x := range bs {
+				ss[i] = strconv.Itoa(int(x))
+			}
+			fmt.Fprintf(&b, "Definition %s : list N := [%s]. (* %s:%s = JoinLenPrefix(this) *)\n", t.Coq, strings.Join(ss, "; "), t.File, t.Name)
 		case "func":
 			fd := findFunc(f, t.Name, t.Recv)
 			if fd == nil {
